@@ -70,6 +70,71 @@ fn run_case(ctx: &mut Ctx, n: usize, directed: bool, edges: Vec<(usize, usize, i
     }
 }
 
+/// astar re-opening network: S -> X directly and through two detours A, B; X -> T.  With an inconsistent admissible
+/// heuristic X is expanded, re-opened through one detour, expanded again and improved a second time through the other.
+/// One case = one weight assignment; inside, every admissible heuristic (A, B, X) in {0..=hmax}^3.
+const REOPEN_ARCS: [(usize, usize); 6] = [(0, 3), (0, 1), (1, 3), (0, 2), (2, 3), (3, 4)];
+fn reopen_weights(idx: u64, k: u64) -> Vec<(usize, usize, i64)> {
+    let mut c = idx;
+    REOPEN_ARCS.iter().map(|&(a, b)| { let w = (c % k) as i64 + 1; c /= k; (a, b, w) }).collect()
+}
+fn run_reopen(ctx: &mut Ctx, idx: u64, k: u64, hmax: i64) {
+    use petgraph::algo::astar;
+    use petgraph::visit::EdgeRef;
+    let edges = reopen_weights(idx, k);
+    let abs: Abs<i64> = Abs::new(5, true, edges.clone());
+    let o = PathOracle::new(5, true, &edges);
+    ctx.nontrivial = true;
+    let au: Abs<u32> = abs.map_w(|w| *w as u32);
+    let hstar: Vec<i64> = (0..5).map(|v| o.d[v][4]).collect();
+    let best = hstar[0];
+    macro_rules! go {
+        ($e:expr) => {{
+            let e = $e;
+            let desc = || format!("{} encoding of {:?}", e.name, abs);
+            for ha in 0..=hmax.min(hstar[1]) {
+                for hb in 0..=hmax.min(hstar[2]) {
+                    for hx in 0..=hmax.min(hstar[3]) {
+                        let h = [0, ha, hb, hx, 0];
+                        let dd = || format!("{} source 0 goal 4 heuristic {:?}", desc(), h);
+                        let r = ctx.g("astar", &desc, || astar(&e.g, e.id(0), |x| e.abs(x) == 4, |er| *er.weight(), |x| h[e.abs(x)] as u32));
+                        match r {
+                            None => {}
+                            Some(None) => ctx.viol("astar", "None although a goal is reachable", dd()),
+                            Some(Some((c, p))) => {
+                                let c = c as i64;
+                                let p: Vec<usize> = p.iter().map(|x| e.abs(*x)).collect();
+                                ctx.mix(&(c, p.len()));
+                                let sum: Option<i64> = p.windows(2).map(|w| o.min_arc(w[0], w[1])).sum();
+                                if p.first() != Some(&0) || p.last() != Some(&4) || sum.is_none() {
+                                    ctx.viol("astar", "path does not start at the source and end at a goal", format!("{} got {:?}", dd(), (c, &p)));
+                                } else if sum != Some(c) {
+                                    ctx.viol("astar", "reported cost is not the sum of the path's edge costs", format!("{} got {:?} path sum {:?}", dd(), (c, &p), sum));
+                                } else if c != best {
+                                    ctx.viol("astar", "cost differs from the distance to the nearest goal (admissible heuristic)", format!("{} got {:?} want {}", dd(), (c, &p), best));
+                                }
+                            }
+                        }
+                    }
+                }
+            }
+        }};
+    }
+    go!(enc::graph::<Directed, u32, _>(&au));
+    go!(enc::graph_rev::<Directed, u8, _>(&au));
+    go!(enc::stable_holes::<Directed, u16, _>(&au));
+}
+fn reopen_family(name: &'static str, thorough_only: bool, k: u64, hmax: i64) -> Family {
+    Family {
+        name,
+        thorough_only,
+        count: k.pow(6),
+        bounds: format!("astar re-opening: the 5-node network S->X, S->A->X, S->B->X, X->T with every cost assignment in {{1..={}}}^6 x every admissible heuristic (A, B, X) in {{0..={}}}^3 (consistent or not), on Graph (both insertion orders) and StableGraph with vacancies", k, hmax),
+        run: Box::new(move |idx, ctx| run_reopen(ctx, idx, k, hmax)),
+        describe: Box::new(move |idx| json!({"reopen": {"edges": reopen_weights(idx, k), "k": k, "hmax": hmax}})),
+    }
+}
+
 fn wlist_family(name: &'static str, thorough_only: bool, f: WListFam, level: u8) -> Family {
     let f2 = f.clone();
     let (n, dir) = (f.n, f.directed);
@@ -120,6 +185,8 @@ fn families(a: &Args) -> Vec<Family> {
         wsimple_family("wsimple4-directed-le4edges", false, WSimpleFam { n: 4, directed: true, loops: false, k: 2, max_edges: Some(if t { 5 } else { 3 }) }, &[1, 2], 1),
         wsimple_family("wsimple3-directed", false, WSimpleFam { n: 3, directed: true, loops: true, k: 3, max_edges: None }, &[0, 1, 3], if t { 2 } else { 1 }),
         wsimple_family("wsimple4-undirected", false, WSimpleFam { n: 4, directed: false, loops: false, k: 3, max_edges: None }, &[0, 1, 3], 1),
+        reopen_family("astar-reopen-4costs", false, 4, 5),
+        reopen_family("astar-reopen-6costs", true, 6, 9),
         wlist_family("wlists3-directed-m4", true, WListFam { n: 3, m: 4, directed: true, loops: true, k: 2 }, 0),
         wsimple_family("wsimple4-directed-all", true, WSimpleFam { n: 4, directed: true, loops: false, k: 3, max_edges: None }, &[0, 1, 2], 0),
         wsimple_family("wsimple5-undirected", true, WSimpleFam { n: 5, directed: false, loops: false, k: 2, max_edges: None }, &[1, 2], 0),
@@ -130,7 +197,7 @@ fn main() {
     main_e2(
         Spec {
             prop: "C10",
-            rule: "E2: every weighted graph of each family (non-negative integer-valued costs, stored as u32/f64 and in thorough also i64/f32) x every source x every goal / goal set x k in 1..=4 x encodings (Graph, Graph with renumbered node, StableGraph with vacancies, MatrixGraph with removed id, GraphMap, Csr, adj::List); astar with h=0, h=exact, h=exact/2 and (Graph encoding) every admissible h: V->{0,1,2} including inconsistent ones; non-trivial = at least one edge".into(),
+            rule: "E2: every weighted graph of each family (non-negative integer-valued costs, stored as u32/f64 and in thorough also i64/f32) x every source x every goal / goal set x k in 1..=4 x encodings (Graph, Graph with renumbered node, StableGraph with vacancies, MatrixGraph with removed id, GraphMap, Csr, adj::List); astar with h=0, h=exact, h=exact/2 and (Graph encoding) every admissible h: V->{0,1,2} including inconsistent ones; a 5-node two-detour network in which an inconsistent admissible heuristic forces a node to be re-opened twice (every cost assignment x every admissible heuristic); non-trivial = at least one edge".into(),
             explanation: "dijkstra maps, goal-bounded dijkstra, astar paths/costs and k_shortest_path maps are compared with exact all-pairs distances (n rounds of relaxation on i64) and with the k smallest walk costs obtained as the fixpoint of sorted k-lists".into(),
             assumptions: vec!["graph sizes, cost alphabets bounded as stated per family; costs are small integers so float arithmetic is exact".into(), "oracles in harness/src/algs/paths.rs are trusted".into()],
             min_outcomes: 10,
